@@ -85,7 +85,14 @@ def m_box_call(ex, f, a):
 @pattern(r'^<.* as Fn(Once|Mut)?<.*>>::call(_once|_mut)?$', prio=9)
 def m_fn_call(ex, f, a):
     fv = a[0]
-    if isinstance(fv, Ref): fv = fv.get()
+    if isinstance(fv, Ref):
+        try: fv = fv.get()
+        except (KeyError, IndexError): fv = None       # capture-less closure: a ZST local that MIR never assigns
+    if fv is None or isinstance(fv, Opaque):
+        st = self_type(f) or ''
+        m_ = re.search(r'\{closure@([^}]+)\}', st)
+        if not m_: raise Unsupported('call through unset function value: ' + f)
+        fv = ClosureVal(m_.group(1), [])
     return ex.call_value(fv, list(a[1].fields))
 @exact('Cell::new', 'RefCell::new')
 def m_cell_new(ex, f, a): return Cell_(a[0])
